@@ -17,6 +17,9 @@ var harnesses = map[string]func(*vsched.H){
 	"RouterScenario":       harness.RouterScenario,
 	"SessionEnd":           harness.SessionEnd,
 	"StorageSeq":           harness.StorageSeq,
+	"LimitCase":            harness.LimitCase,
+	"LimitStack":           harness.LimitStack,
+	"NIP11Chain":           harness.NIP11Chain,
 	"CacheConcurrent":      harness.CacheConcurrent,
 	"CacheHandlerSessions": harness.CacheHandlerSessions,
 }
